@@ -28,9 +28,10 @@ PROPERTY = "C15"
 LEVEL = "fault_enumeration"
 ENGINE = "E6 application scenarios"
 ANCHORS = ["asphalt.core._runner:run_application", "asphalt.core._runner:_run_application_async", "asphalt.core._runner:handle_signals"]
-RESULTS: list[Any] = [None, 0, 1, 5, 127, 128, -1, 3.5, "x"]
+# every class of run() result: None, ints inside / outside 0-127 (bools are ints), truthy and *falsy* non-ints
+RESULTS: list[Any] = [None, 0, 1, 5, 127, 128, -1, 1000, True, False, 3.5, "x", "", 0.0, [], {}, b""]
 RULE = (
-    "per tree shape (1-5 components, each registering 1-3 teardown probes in prepare() and start()) ALL endings are enumerated: 9 run() result classes, "
+    "per tree shape (1-5 components, each registering 1-3 teardown probes in prepare() and start()) ALL endings are enumerated: 17 run() results (None, ints in and out of range, bools, truthy and falsy non-ints), "
     "run() raising {ValueError, custom Exception}, failure in every (component, phase in ctor/prepare/start), start-up timeout, each of SIGINT/SIGTERM "
     "raised from every (component, phase) probe, during a CLI run(), and after start-up of a non-CLI application, a service task crashing during "
     "start-up and after it; both backends. Non-trivial: >= 2 teardown probes registered before the ending; distinct = (tree, ending, backend)."
@@ -101,7 +102,7 @@ _ALL = all_scenarios()
 
 
 def plan(tier: str) -> dict[str, Any]:
-    reps = 3 if tier == "quick" else 60
+    reps = 6 if tier == "quick" else 600
     return {"cases": len(_ALL) * reps, "budget_s": 120 if tier == "quick" else 1500, "min_per_shard": 30, "min_cases": len(_ALL)}
 
 
@@ -309,7 +310,7 @@ def check(sc: Scenario) -> tuple[list[dict[str, Any]], dict[str, int]]:
     o = sc.outcome
     if kind == "result":
         v = ending["value"]
-        if v is None or v == 0:
+        if v is None or (isinstance(v, int) and v == 0):
             want: Any = ("return", None)
         elif isinstance(v, int) and 1 <= v <= 127:
             want = ("exit", v)
